@@ -142,7 +142,9 @@ def handle (w : World) (line : String) : World × String :=
     match (kv toks "name").bind unhex, (kv toks "qtype").bind natOf, kv toks "route", kv toks "detail" with
     | some n, some q, some kind, some d =>
       match parseRoute kind d with
-      | some r => let k := responseKey n q r; (w, s!"key={hexOf k} base={hexOf (baseKey k)}")
+      | some r =>
+        let cls := ((kv toks "class").bind natOf).getD 1
+        let k := requestKey n q cls r; (w, s!"key={hexOf k} base={hexOf (baseKey k)}")
       | none => (w, "bad-op")
     | _, _, _, _ => (w, "bad-op")
   | "ins" :: toks =>
@@ -150,7 +152,10 @@ def handle (w : World) (line : String) : World × String :=
           (kv toks "qtype").bind natOf, (kv toks "ttl").bind intOf, (kv toks "ans").bind natOf,
           (kv toks "n").bind natOf, (kv toks "ns").bind natOf, kv toks "ip" with
     | some t, some k, some h, some q, some ttl, some a, some n, some ns, some ip =>
-      let (w', _) := step w (.insert t k h q ttl a n ns (ip = "1")); (w', "ok")
+      -- cb=1: the CacheAccessCallback fails after the entry was published: the caller gets the error,
+      -- the cache has the entry
+      let (w', _) := step w (.insert t k h q ttl a n ns (ip = "1"))
+      (w', if (kv toks "cb") = some "1" && ip != "1" then "err" else "ok")
     | _, _, _, _, _, _, _, _, _ => (w, "bad-op")
   | "insn" :: toks =>
     -- NormalizeAndCacheDnsResp_: resp/rcode guard, TTL of the first answer (120 when empty), clamp
@@ -160,42 +165,33 @@ def handle (w : World) (line : String) : World × String :=
     | some t, some k, some h, some q, some rttl, some a, some n, some ns, some rc, some ip =>
       let resp := (kv toks "resp").getD "1" = "1"
       let nq := ((kv toks "nq").bind natOf).getD 1
-      if cacheable resp nq rc then
+      let cls := ((kv toks "class").bind natOf).getD 1
+      if cacheable resp nq rc cls then
         let (w', _) := step w (.insert t k h q (normTtl n rttl) a n ns (ip = "1")); (w', "ok")
       else (w, "ok")
     | _, _, _, _, _, _, _, _, _, _ => (w, "bad-op")
   | "ask" :: toks =>
-    -- a whole request through HandleWithResponseWriter_ (as-is route), upstream round trip 1 s:
-    -- derive the key, look up; stale hit with needRefresh ⇒ the background refresh stores the
-    -- upstream's reply and runs its clean-up one second later; miss ⇒ forward, store the reply one
-    -- second later and look the key up once more (that lookup's needRefresh is dropped by the caller).
+    -- a whole request through HandleWithResponseWriter_ (as-is route): `World.ask`
     match (kv toks "t").bind intOf, (kv toks "name").bind unhex, (kv toks "qtype").bind natOf,
           (kv toks "dst").bind unhex, (kv toks "rttl").bind natOf, (kv toks "ans").bind natOf,
           (kv toks "n").bind natOf, (kv toks "ns").bind natOf, (kv toks "rcode").bind natOf with
     | some t, some name, some q, some dst, some rttl, some a, some n, some ns, some rc =>
-      let key := responseKey name q (.asIs (some dst))
-      let host := fqdn name
-      let store (w : World) : World :=
-        if cacheable true 1 rc then (step w (.insert (t + SEC) key host q (normTtl n rttl) a n ns false)).1 else w
+      let cls := ((kv toks "class").bind natOf).getD 1
+      let g := ((kv toks "g").bind natOf).getD 1
+      let (w', outs) := w.ask t name q cls (.asIs (some dst)) ⟨rttl, a, n, ns, rc⟩ g
       let showHit (s : Served) : String :=
         let an := if s.nAns > 0 then toString s.ans else "-"
         let tt := if s.visible then toString s.ttl else "-"
         s!"rcode=0 ans={an} n={s.nAns} ttl={tt}"
-      match step w (.lookup t key false) with
-      | (w1, .hit s) =>
-        if s.refresh then
-          let w2 := store w1
-          let (w3, _) := step w2 (.refreshDone (t + SEC) key)
-          (w3, s!"ask lat=0 fw=1 {showHit s}")
-        else (w1, s!"ask lat=0 fw=0 {showHit s}")
-      | (w1, .miss) =>
-        let w2 := store w1
-        match step w2 (.lookup (t + SEC) key false) with
-        | (w3, .hit s) => (w3, s!"ask lat={SEC} fw=1 {showHit s}")
-        | (w3, .miss) =>
-          -- the upstream's own message goes out (TTLs as the upstream sent them, zeroed for A/AAAA)
-          let an := if n > 0 then toString a else "-"
-          (w3, s!"ask lat={SEC} fw=1 rcode={rc} ans={an} n={n} ttl=up")
+      match outs.head?, outs.getLast? with
+      | some (.hit s), _ =>
+        -- g simultaneous hits: the same bytes for all; at most the first is told to refresh
+        (w', s!"ask lat=0 fw={if s.refresh then 1 else 0} {showHit s}")
+      | some .miss, some (.hit s) => (w', s!"ask lat={SEC} fw=1 {showHit s}")
+      | _, _ =>
+        -- the upstream's own message goes out
+        let an := if n > 0 then toString a else "-"
+        (w', s!"ask lat={SEC} fw=1 rcode={rc} ans={an} n={n} ttl=up")
     | _, _, _, _, _, _, _, _, _ => (w, "bad-op")
   | "look" :: toks =>
     match (kv toks "t").bind intOf, (kv toks "key").bind unhex, kv toks "ign" with
@@ -229,6 +225,19 @@ def handle (w : World) (line : String) : World × String :=
     match (kv toks "base").bind unhex with
     | some b => let (w', _) := step w (.removeFamily b); (w', "ok")
     | none => (w, "bad-op")
+  | "hammer" :: toks =>
+    -- `arms` times: release the latch of the (stale, latched) entry, then any number of lookups:
+    -- by `refresh_only_when_none_in_flight` exactly one of them asks for a refresh
+    match (kv toks "t").bind intOf, (kv toks "key").bind unhex, (kv toks "arms").bind natOf with
+    | some t, some k, some arms =>
+      let round (acc : World × Nat) : World × Nat :=
+        let (w1, _) := step acc.1 (.refreshDone t k)
+        let (w2, rs) := run w1 (List.replicate 3 (.lookup t k false))
+        let n := (rs.filter fun r => match r with | .hit s => s.refresh | .miss => false).length
+        (w2, if n = 1 then acc.2 else acc.2 + 1)
+      let (w', bad) := (List.range (min arms 50)).foldl (fun acc _ => round acc) (w, 0)
+      (w', s!"hammer releases={arms} extra_refresh_requests={bad}")
+    | _, _, _ => (w, "bad-op")
   | "note" :: _ => (w, "note")
   | ["keys"] => (w, "keys=" ++ keysStr (w.st.entries.map (·.1)))
   | "heap" :: toks =>
